@@ -4,6 +4,7 @@ import (
 	"fmt"
 	"go/ast"
 	"go/token"
+	"go/types"
 	"strings"
 
 	"golang.org/x/tools/go/cfg"
@@ -44,6 +45,16 @@ func ruleR41(c *Ctx) {
 				case *ast.CallExpr:
 					if isBuiltinCall(info, y, "copy") && len(y.Args) == 2 && strings.Contains(exprText(y.Args[0]), "children") {
 						out = append(out, evVAC)
+					}
+					// closeSlot(n.children[:], i): a library helper that writes through the slice it is given
+					if f := m.staticCallee(y); f != nil && f.Pkg() == m.Pkg {
+						w := c.e.writesThrough(f)
+						for ai, a := range y.Args {
+							if w[ai] && strings.Contains(exprText(a), "children") {
+								out = append(out, evVAC)
+								break
+							}
+						}
 					}
 				case *ast.AssignStmt:
 					if len(y.Lhs) == 1 && len(y.Rhs) == 1 && info.Types[y.Rhs[0]].IsNil() && strings.HasSuffix(exprText(y.Lhs[0]), ".pointer") {
@@ -132,6 +143,96 @@ func ruleR41(c *Ctx) {
 			})
 			if !moved {
 				c.r.ok("R41", k.Struct.Obj().Name()+".deleteChild closes the gap by shifting", m.pos(u.Decl.Pos()), "no slot-to-slot move inside the node", props...)
+			}
+			// a class whose insert-position search is not given the fill count looks at every lane:
+			// the lanes beyond the fill count must stay what the shift leaves there (copies of the
+			// former top byte, which never sort below an occupied lane). A store of a single lane or
+			// slot in deleteChild – zeroing the vacated one "for hygiene" – puts a smaller byte under
+			// a stale larger one, and the next insert lands above a hole.
+			allLane := false
+			if au := m.ByName[k.Struct.Obj().Name()+".addChild"]; au != nil {
+				ast.Inspect(au.Body, func(x ast.Node) bool {
+					if call, ok := x.(*ast.CallExpr); ok && strings.HasPrefix(m.calleeName(call), "insertPos") {
+						usesLen := false
+						for _, a := range call.Args {
+							if strings.Contains(exprText(a), "childrenLen") {
+								usesLen = true
+							}
+						}
+						if !usesLen {
+							allLane = true
+						}
+					}
+					return true
+				})
+			}
+			if allLane {
+				key := k.Struct.Obj().Name() + ".deleteChild leaves the lanes beyond the fill count to the shift"
+				var where ast.Node
+				ast.Inspect(u.Body, func(x ast.Node) bool {
+					switch y := x.(type) {
+					case *ast.AssignStmt:
+						if y.Tok == token.DEFINE || len(y.Lhs) != len(y.Rhs) {
+							return true
+						}
+						for i, l := range y.Lhs {
+							ie, isIdx := ast.Unparen(l).(*ast.IndexExpr)
+							if !isIdx {
+								continue
+							}
+							sel, isSel := ast.Unparen(ie.X).(*ast.SelectorExpr)
+							if !isSel || (sel.Sel.Name != "children" && sel.Sel.Name != "keys") || info.ObjectOf(identOf(sel.X)) != recv {
+								continue
+							}
+							reads := false
+							ast.Inspect(y.Rhs[i], func(z ast.Node) bool {
+								if rs, ok := z.(*ast.SelectorExpr); ok && (rs.Sel.Name == "children" || rs.Sel.Name == "keys") && info.ObjectOf(identOf(rs.X)) == recv {
+									reads = true
+								}
+								return true
+							})
+							if !reads && where == nil {
+								where = y
+							}
+						}
+					case *ast.CallExpr:
+						f := m.staticCallee(y)
+						if f == nil || f.Pkg() != m.Pkg {
+							return true
+						}
+						sig, _ := f.Type().(*types.Signature)
+						if sig == nil || sig.Recv() != nil {
+							return true
+						}
+						hasByte := false
+						for pi := 0; pi < sig.Params().Len(); pi++ {
+							if b, ok := sig.Params().At(pi).Type().Underlying().(*types.Basic); ok && (b.Kind() == types.Uint8 || b.Kind() == types.Byte) {
+								hasByte = true
+							}
+						}
+						if !hasByte {
+							return true
+						}
+						w := c.e.writesThrough(f)
+						for ai, a := range y.Args {
+							if !w[ai] {
+								continue
+							}
+							ast.Inspect(a, func(z ast.Node) bool {
+								if rs, ok := z.(*ast.SelectorExpr); ok && (rs.Sel.Name == "children" || rs.Sel.Name == "keys") && info.ObjectOf(identOf(rs.X)) == recv && where == nil {
+									where = y
+								}
+								return true
+							})
+						}
+					}
+					return true
+				})
+				if where == nil {
+					c.r.ok("R41", key, m.pos(u.Decl.Pos()), "the arrays of the node are written by the shift only", props...)
+				} else {
+					c.r.bad("R41", key, m.pos(where.Pos()), "a single lane or slot of the node is stored in deleteChild: the insert-position search of this class is not given the fill count and sees every lane, so the lanes beyond the fill count must stay what the shift leaves there (copies of the former top byte); a smaller byte written under a stale larger one makes the next insert land above a hole", props...)
+				}
 			}
 		}
 		if !bad {
